@@ -9,7 +9,7 @@ local integers i, j, l.  All dummy arguments are observable.
 """
 import itertools
 
-HEADER = """subroutine s(n, m, k, t, u, a, b, c, q)
+HEADER = """subroutine s(n, m, k, t, u, a, b, c, q, iv)
   integer, intent(in) :: n
   integer, intent(in) :: m
   integer, intent(inout) :: k
@@ -19,6 +19,7 @@ HEADER = """subroutine s(n, m, k, t, u, a, b, c, q)
   real, intent(inout) :: b(0:m)
   real, intent(inout) :: c(0:m)
   real, intent(inout) :: q(0:m,0:m)
+  integer, intent(in) :: iv(0:m)
   integer :: i
   integer :: j
   integer :: l
@@ -222,6 +223,19 @@ def corpus(tier):
             res = emit(f"B:{bkey}:{skey}", body)
             if res:
                 yield res
+    # bounds that depend on the OTHER loop's variable only through a subscript
+    for skey, stext in two[:12]:
+        for bkey, inner in (("1,iv(j)", "1, iv(j)"), ("iv(j),n", "iv(j), n"),
+                            ("1,n,iv(j)+1", "1, n, iv(j) + 1")):
+            body = (f"do j = 1, n\n  do i = {inner}\n"
+                    f"{indent(stext, '    ').rstrip()}\n  end do\nend do")
+            res = emit(f"TRX:{bkey}:{skey}", body)
+            if res:
+                yield res
+        body = (f"do j = iv(i), n\n{indent(stext, '  ').rstrip()}\nend do")
+        res = emit(f"TRY:{skey}", loop("i", "up", body))
+        if res:
+            yield res
     # conditional return folding
     for skey, stext in (("a1", "a(1) = 3.0"), ("t", "t = t + 1.0")):
         for ckey, ctext in (("n<2", "n < 2"), ("t>1", "t > 1.0"), ("k==1", "k == 1")):
